@@ -159,7 +159,7 @@ class _Worlds:
     def setup_worlds(self, need_vcf=False):
         from vf.models import pysam_model as pm, core_model, vcfdoc
 
-        self.pm = pm
+        self.pm, self.core_model = pm, core_model
         self.world = SymWorld(overrides={"pysam": pm, "pysam.libcbcf": pm, "whatshap.core": core_model, "whatshap.cli": vcfdoc.cli_stub()})
         self.sym_unphase = self.world.load("whatshap.cli.unphase")
         self.sym_vcf = self.world.load("whatshap.vcf") if need_vcf else None
@@ -168,9 +168,12 @@ class _Worlds:
 
         self.real_unphase = ru
         if need_vcf:
+            import logging
             import whatshap.vcf as rv
 
             self.real_vcf = rv
+            rv.logger.setLevel(logging.CRITICAL)
+            self.sym_vcf.logger.setLevel(logging.CRITICAL)
 
 
 class SymUnphase:
@@ -198,10 +201,14 @@ class RealUnphase:
     def unphase_chain(self, doc, n):
         from vf.models import materialise
 
+        return self.unphase_path_chain(materialise.write_vcf(doc, self.o.spath("in.vcf")), n)
+
+    def unphase_path_chain(self, cur, n, prefix="out"):
+        from vf.models import materialise
+
         outs = []
-        cur = materialise.write_vcf(doc, self.o.spath("in.vcf"))
         for i in range(n):
-            out = self.o.spath("out%d.vcf" % i)
+            out = self.o.spath("%s%d.vcf" % (prefix, i))
             with open(out, "w") as fo:
                 self.o.real_unphase.run_unphase(cur, fo)
             outs.append(materialise.read_vcf(out))
@@ -307,7 +314,101 @@ class Unphase(_Worlds, ScratchMixin, SubCheck):
         return "unphase:%s" % v["msg"]
 
 
-SUBCHECKS = {c.name: c for c in [Unphase()]}
+class SymAfter:
+    def __init__(self, owner):
+        from checks import c04
+
+        self.ph, self.un = c04.SymPhase(owner), SymUnphase(owner)
+
+    def both(self, doc, shape, plan):
+        phased = self.ph.phase(doc, shape, plan)
+        return self.un.unphase_chain(phased, 1)[0], self.un.unphase_chain(doc, 1)[0]
+
+
+class RealAfter:
+    def __init__(self, owner):
+        from checks import c04
+
+        self.o = owner
+        self.ph, self.un = c04.RealPhase(owner), RealUnphase(owner)
+
+    def both(self, doc, shape, plan):
+        self.ph.phase(doc, shape, plan)  # writes <scratch>/out.vcf
+        a = self.un.unphase_path_chain(self.o.spath("out.vcf"), 1, prefix="unphased_phased")[0]
+        return a, self.un.unphase_chain(doc, 1)[0]
+
+
+class AfterPhase(_Worlds, ScratchMixin, SubCheck):
+    """unphase(phase(x)) has the same records as unphase(x); phase() = PhasedVcfWriter.write of whatshap/vcf.py on
+    the scenarios of the C04 check (record kinds, pre-existing phasing, both tags, one or two target samples,
+    duplicate positions), genotypes trusted."""
+
+    name = "after_phase"
+    encoded = Unphase.encoded + ["whatshap.vcf.PhasedVcfWriter.write (+ helpers, as in C04)"]
+    sources = ["whatshap/cli/unphase.py", "whatshap/vcf.py"]
+    assumptions = Unphase.assumptions + [
+        "phase() is the writer of whatshap/vcf.py fed with a phasing result `whatshap phase` can produce, genotypes trusted (super-read genotype = input genotype); see C04 for the exact precondition",
+        "inputs on which run_unphase itself fails (haploid / polyploid-with-missing / no GT: findings of sub-check `unphase`) and phasings whose HP output is not parseable (finding of C04) are excluded",
+    ]
+    stubs = Unphase.stubs + ["whatshap.core Read/ReadSet/Genotype: vf/models/core_model.py (replayed on the compiled module)"]
+    required_cover = ["phase run changed the file", "GT order changed by phasing"]
+
+    def shapes(self, tier):
+        from vf.models import vcfdoc
+
+        vcfdoc.prebuild()
+        out = []
+        for tag in ("PS", "HP"):
+            for kind, mav in (("snv", 0), ("indel", 0), ("multi", 1)):
+                for pre in ("none", "PS", "HP"):
+                    out.append(dict(tag=tag, nsamp=2, targets=[0], kinds=[kind], pre=[pre], mav=mav, gtset="full", rich=1, hv=1))
+            out.append(dict(tag=tag, nsamp=2, targets=[0, 1], kinds=["snv"], pre=["none"], gtset="small", rich=0, hv=0))
+            out.append(dict(tag=tag, nsamp=1, targets=[0], kinds=["snv", "snv"], pre=["none", tag], gtset="small", rich=0, hv=0))
+            if tier != "quick":
+                out.append(dict(tag=tag, nsamp=2, targets=[0, 1], kinds=["snv", "multi"], pre=["PS", "HP"], mav=1, gtset="small", rich=0, hv=1, oldfix=1))
+                out.append(dict(tag=tag, nsamp=1, targets=[0], kinds=["snv", "indel", "snv"], pre=["none"] * 3, gtset="small", rich=0, hv=0))
+        return out
+
+    def bounds(self, tier):
+        return "%d shapes of the C04 scenario generator (1-2 records x 1-2 samples, tags PS/HP, pre-existing PS/HP, genotype classes incl. missing/partial, super-read placement and order solver-chosen)" % len(self.shapes(tier))
+
+    def setup(self):
+        self.setup_worlds(need_vcf=True)
+
+    def sym_impl(self):
+        return SymAfter(self)
+
+    def real_impl(self):
+        return RealAfter(self)
+
+    def harness(self, e, shape, impl):
+        from checks import c04
+        from vf.models.vcfdoc import deq, Obligations
+
+        doc, plan, meta = c04.build(e, shape)
+        e.assume(not (shape["tag"] == "HP" and meta["all_unphased"] and meta["nsamp"] >= 2))
+        info = lambda: dict(input=e.value(doc), plan=e.value([list(p) for p in plan]), tag=shape["tag"])
+        try:
+            a, b = impl.both(doc, shape, plan)
+        except Exception as ex:
+            e.check(False, "phase/unphase raised %s" % type(ex).__name__, info)
+        e.out("unphase(phase(x))", a)
+        e.out("unphase(x)", b)
+        if meta["sr_at"]:
+            e.cover("phase run changed the file")
+        if any(al[0] != al[1] for al in meta["sr_at"].values()):
+            e.cover("GT order changed by phasing")
+        ob = Obligations(e, info)
+        e.check(len(a["records"]) == len(b["records"]), "unphase(phase(x)) has a different number of records than unphase(x)", info)
+        for i, (ra, rb) in enumerate(zip(a["records"], b["records"])):
+            ob.add(deq(ra, rb), "record %d of unphase(phase(x)) differs from unphase(x)" % i)
+        ob.discharge()
+
+    def classify(self, shape, v):
+        return "after_phase:%s" % v["msg"]
+
+
+SUBCHECKS = {c.name: c for c in [Unphase(), AfterPhase()]}
 
 if __name__ == "__main__":
     import sys
